@@ -26,3 +26,8 @@ Lemma tie_in_wrapped_region r l : in_wrapped_region r l = k_in_wrapped_region r 
 Proof.
   unfold in_wrapped_region, k_in_wrapped_region. apply forallb_pointwise. intros p. first [reflexivity | lia].
 Qed.
+
+(* _linearise_location as a WHOLE: the whole-ring case through the FeatureLocation constructor, every other location
+   through clone_with_offset(-region.start, wrap_point=record_length) = Loc.offset_location *)
+Lemma tie_linearise_location l r N : linearise_loc l (rstart r) N = k_linearise_location l r N.
+Proof. reflexivity. Qed.
